@@ -15,9 +15,11 @@ LEVEL = "exploration"
 SCENARIOS = {"eeprom-pdos": 3, "sdo-pdos": 2, "ebpf-terminal": 2}
 TIERS = {"quick": {"runs": 4200, "chunk": 20}, "thorough": {"runs": 50000000, "wall_s": 600, "chunk": 100, "recheck": 16}}
 RULE = ("one run = 1-3 simulated terminals, each with a tape-generated well-formed SII "
-        "image (identity, 0-8 categories of distinct random types/lengths/contents, a "
+        "image (identity, 0-8 categories of distinct random types - standard, NOP (0), low and "
+        "vendor-specific up to 0xfffe - with lengths 0..23 words and random contents, a "
         "sync-manager category with mailbox and/or process-data entries, TxPDO/RxPDO "
-        "categories with bit and byte entries), EEPROM interface in 4- or 8-byte mode, "
+        "categories with bit and byte entries, bit fields starting in mid-byte, padding entries "
+        "(index 0) of 1..23 bits and byte-aligned gaps), EEPROM interface in 4- or 8-byte mode, "
         "busy 0..3 polls after each command, read concurrently through the real "
         "Terminal.initialize/read_eeprom/parse_pdos (EEPROM path, SDO path against CoE "
         "objects 0x1C12/0x1C13, and the EBPFTerminal.apply_eeprom flow); results compared "
@@ -54,8 +56,21 @@ def gen_pdos(tape, base_index, label):
                     entries.append((idx, sub + 0x20 * b, 1))
                     expect[(idx, sub + 0x20 * b)] = (bitpos // 8, bitpos % 8)
                     bitpos += 1
+                room = -bitpos % 8
+                if room >= 2 and tape.chance(f"{label}/field-after-bits", 30):
+                    # a 2..room bit field that starts in the middle of the byte
+                    w = 2 + tape.draw(f"{label}/w2", room - 1)
+                    entries.append((idx, sub + 0x10, w))
+                    expect[(idx, sub + 0x10)] = (bitpos // 8, bitpos % 8)
+                    bitpos += w
                 if bitpos % 8:
-                    pad = 8 - bitpos % 8
+                    # one padding entry (index 0) up to the next byte, or - as terminals with
+                    # 16-bit status words have it - up to one or two bytes further
+                    pad = 8 - bitpos % 8 + 8 * tape.pick(f"{label}/padbytes", [0, 0, 1, 2])
+                    entries.append((0, 0, pad))
+                    bitpos += pad
+                elif tape.chance(f"{label}/aligned-gap", 20):
+                    pad = tape.pick(f"{label}/gapbits", [8, 16, 24, 32, 40])
                     entries.append((0, 0, pad))
                     bitpos += pad
             elif kind == 1 and bitpos % 8 == 0:   # a 2..7 bit field then padding
@@ -112,6 +127,9 @@ def run(tape, scenario):
             layout.append((0x1c00, insz, 0x20))
         cats = []
         pool = [10, 30, 40, 60, 70] + [0x100 + tape.draw("c17/cattype", 0x7000) for _ in range(4)]
+        if tape.chance("c17/odd-types", 50):
+            # NOP (0), the low standard types and the vendor specific range up to 0xfffe
+            pool += tape.shuffle("c17/oddtypes", [0, 1, 2, 3, 0x8001, 0xfffe])[:3]
         pool = list(dict.fromkeys(pool))
         ncat = tape.draw("c17/ncat", 6)
         chosen = tape.shuffle("c17/catorder", pool)[:ncat]
